@@ -143,3 +143,16 @@ Proof.
     destruct (0 <? s_pol_stop_msgs st); [eexists; eexists; reflexivity|].
     rewrite F. unfold client_of. rewrite GB. eexists; eexists; reflexivity.
 Qed.
+
+(* ---- the policy worker ---- *)
+(* at its loop head with a batch queued it can always apply the head batch (no panic: every queued
+   key is a u64, the estimator is well-formed) *)
+Theorem worker_can_take_the_head_batch c st b r :
+  NP st -> SO st -> s_wpc st = WIdle -> s_pqueue st = b :: r ->
+  exists st' o, worker_step c st {| h_arm := Some ArmItem; h_oracle := []; h_tick_key := None |} = StepOk st' o.
+Proof.
+  intros N S W Q.
+  pose proof (no_step_panics c st (LWorker {| h_arm := Some ArmItem; h_oracle := []; h_tick_key := None |}) 41 N S I) as NP41.
+  cbn [cstep] in NP41. unfold worker_step in *. rewrite W in *. cbn [h_arm] in *. rewrite Q in *.
+  destruct (tl_increments (s_tlfu st) b); [eexists; eexists; reflexivity|congruence].
+Qed.
